@@ -254,6 +254,13 @@ def lck_pred(ctx: Ctx) -> RuleResult:
                 continue
             if any(isinstance(c, ast.Call) and isinstance(c.func, ast.Attribute) and c.func.attr == "locked" for c in ast.walk(rets[0])):
                 continue  # reported above
+            mentions_state = any(b.resolve(p, x) is not None for x in ast.walk(rets[0]) if isinstance(x, (ast.Name, ast.Attribute)))
+            if mentions_state:
+                r.ob(False)
+                r.violate(f"{p.short}: the description predicate does not involve the calling thread: {norm_src(rets[0].value)}", p.loc(rets[0]),
+                          "a predicate built only from shared state is true in EVERY thread while ANY thread describes a DAG: calls made "
+                          "by other threads are taken for part of the description in progress", norm_src(rets[0]))
+                continue
             raise Undecided(f"{p.short}: predicate form not recognised: {norm_src(rets[0])}")
         c = idc[0]
         owner_side = c.left if not isinstance(c.left, ast.Call) else c.comparators[0]
